@@ -219,8 +219,106 @@ def expr_tail_twins(ctx):
     return cases, fails
 
 
+def probe_loop_continuity(seed, cases=12):
+    """Directed family: coroutine callbacks that keep something bound to the event loop *between* events — a task
+    started by one event and awaited by a later one, a future resolved by a later event, an `asyncio.Event`. The same
+    machine is driven from synchronous code (no loop) and from inside a running loop; results, states and callback
+    log must be the same (and be what the plain reading says)."""
+    import asyncio
+    import random
+    import warnings
+    from statemachine import State, StateMachine
+    fails = []
+    for i in range(cases):
+        rng = random.Random(f"{seed}:loopcont:{i}")
+        kind = ("task", "future", "event")[i % 3]
+        gap = rng.randint(0, 3)           # unrelated events between the two
+        yields = rng.randint(0, 3)
+
+        def make():
+            log = []
+            with warnings.catch_warnings():
+                warnings.simplefilter("ignore")
+
+                class LC(StateMachine):
+                    idle = State(initial=True)
+                    busy = State()
+                    done = State(final=True)
+                    begin = idle.to(busy)
+                    poke = busy.to.itself(internal=True)
+                    finish = busy.to(done)
+
+                    async def on_begin(self, name):
+                        log.append("begin")
+                        if kind == "task":
+                            async def work():
+                                for _ in range(yields):
+                                    await asyncio.sleep(0)
+                                return f"<{name}>"
+                            self.pending = asyncio.ensure_future(work())
+                        elif kind == "future":
+                            self.pending = asyncio.get_running_loop().create_future()
+                        else:
+                            self.pending = asyncio.Event()
+                        return "begun"
+
+                    async def on_poke(self):
+                        log.append("poke")
+                        if kind == "future" and not self.pending.done():
+                            self.pending.set_result("<poked>")
+                        if kind == "event":
+                            self.pending.set()
+                        return "poked"
+
+                    async def on_finish(self):
+                        log.append("finish")
+                        if kind == "event":
+                            await asyncio.wait_for(self.pending.wait(), 5)
+                            return "<set>"
+                        return await asyncio.wait_for(self.pending, 5)
+                return LC(), log
+
+        script = [("begin", dict(name="a.txt"))] + [("poke", {})] * max(gap, 1 if kind != "task" else 0) + [("finish", {})]
+
+        def sync_driver():
+            sm, log = make()
+            out = []
+            for ev, kw in script:
+                try:
+                    out.append(sm.send(ev, **kw))
+                except BaseException as e:
+                    if isinstance(e, (KeyboardInterrupt, SystemExit)):
+                        raise
+                    out.append(f"raised {type(e).__name__}")
+            return out, sm.current_state.id, log
+
+        async def loop_driver():
+            sm, log = make()
+            await sm.activate_initial_state()
+            out = []
+            for ev, kw in script:
+                try:
+                    out.append(await sm.send(ev, **kw))
+                except BaseException as e:
+                    out.append(f"raised {type(e).__name__}")
+            return out, sm.current_state.id, log
+        with warnings.catch_warnings():
+            warnings.simplefilter("ignore")
+            a = sync_driver()
+            b = asyncio.run(loop_driver())
+        want_last = {"task": "<a.txt>", "future": "<poked>", "event": "<set>"}[kind]
+        if a != b or a[1] != "done" or a[0][-1] != want_last:
+            fails.append(f"{kind} kept between events (gap {gap}, {yields} suspensions): driven from sync code {a}, "
+                         f"inside a loop {b}, expected to end in done with {want_last}")
+    return fails
+
+
 def run(ctx):
     lean_obligations(ctx)
+    lc = probe_loop_continuity(ctx.seed, 12 if ctx.tier == "quick" else 120)
+    ctx.coverage["loop_continuity_cases"] = 12 if ctx.tier == "quick" else 120
+    if lc:
+        ctx.violation(ctx.write_replay("loop_continuity.txt", "\n".join(lc[:10]) + "\n"), lc[0][:200])
     ctx.coverage["rule"] = ("every engine scenario (candidates, guards, validators, nested sends, failing callbacks, result "
                             "values) with each callback coroutine-or-not drawn per callback (all / ~half / one), coroutines "
                             "yielding 0-3 times, driven from sync code with no loop (facade) or awaited inside a running "
